@@ -623,6 +623,9 @@ def _arg_to_json_like(arg, cast_types=False):
             if cast_types and val in INV_DTYPE_LOOKUP:
                 return INV_DTYPE_LOOKUP[val]
             raise TypeError(f"Type {val!r} cannot be written in JSON form.")
+        if cast_types and isinstance(val, str):
+            # `from_spec` reads every string in this position as a type name
+            raise TypeError(f"String {val!r} cannot be written where type names go.")
         if isinstance(val, dict):
             return escape(val)
         return copy.deepcopy(val)
